@@ -21,17 +21,27 @@ pub fn c19(cx: &Cx) -> i32 {
     dump_flag_rule(cx, &mut rep);
     // impl items: with dump the error message is formatted from the very tokens returned without dump
     let ix = &cx.ix;
-    if let Some(f) = find_fn(ix, &|f| sig_text(f).contains("&ItemImpl") && sig_text(f).contains("->Result<TokenStream>")) {
+    if let Some(f) = impl_builder(ix) {
         let mut ev = mk_ev(ix);
         let cg = crate::roles::CallGraph::build(ix);
-        for c in cg.edges.get(&f.qual).cloned().unwrap_or_default() { if let Some(g) = ix.get_fn(&c) { if (sig_text(&g).contains("->Result<") || sig_text(&g).contains("->(Type,bool)") || (sig_text(&g).contains("&PathSegment") && sig_text(&g).contains("->Type"))) && c != f.qual { ev.stops.push((c.clone(), "ret")); } } }
+        let mut callees: Vec<String> = cg.edges.get(&f.qual).cloned().unwrap_or_default().into_iter().collect();
+        for h in ix.fns.values().flatten().filter(|g| is_impl_helper(ix, g) && g.qual != f.qual) { callees.extend(cg.edges.get(&h.qual).cloned().unwrap_or_default()); }
+        for c in callees { if let Some(g) = ix.get_fn(&c) { if is_impl_helper(ix, &g) { continue; } if ev.stops.iter().any(|s| s.0 == c) { continue; } if (sig_text(&g).contains("->Result<") || sig_text(&g).contains("->(Type,bool)") || (sig_text(&g).contains("&PathSegment") && sig_text(&g).contains("->Type"))) && c != f.qual { ev.stops.push((c.clone(), "ret")); } } }
         let outs = ev.call_fn(St::new(), &f, None, vec![sym("TokenStream", "attr"), sym("ItemImpl", "item_impl")]);
         let mut plain: BTreeMap<String, String> = BTreeMap::new();
         let mut dumped: BTreeMap<String, String> = BTreeMap::new();
         let render = |v: &Val| { let mut ctx = crate::render::Ctx::new(2); crate::render::render(v, &mut ctx).to_string() };
         for (st, fl) in &outs {
             if st.cond.iter().any(|(a, b)| a.starts_with("ok(") && !*b) { continue; }
-            let Some((da, dv)) = st.cond.iter().find(|(a, _)| a.ends_with(".dump")).map(|(a, b)| (a.clone(), *b)) else { continue };
+            let Some((da, dv)) = st.cond.iter().find(|(a, _)| a.ends_with(".dump")).map(|(a, b)| (a.clone(), *b)) else {
+                // code is returned on a path that never looks at the dump flag: dump is ignored there
+                if let Flow::Val(Val::Enum { var, args, .. }) | Flow::Ret(Val::Enum { var, args, .. }) = fl {
+                    if var == "Ok" && !args.is_empty() && !render(&args[0]).trim().is_empty() {
+                        rep.fail("DM-impl-dump", &f.qual, "dump-not-consulted", &format!("code is returned on a path that never consults the dump flag, so `dump` is silently ignored there: {}", cond_str(&st.cond).chars().take(200).collect::<String>()), &site(&f), json!({"configuration": cond_str(&st.cond)}));
+                    }
+                }
+                continue
+            };
             let mut c2 = st.cond.clone();
             c2.remove(&da);
             let key = cond_str(&c2);
@@ -242,7 +252,7 @@ pub fn other_gates_rule(cx: &Cx, rep: &mut Report) {
     }
     rep.unanalysable(&fa.qual, &ev.unsupported.borrow());
 }
-thread_local! { static PARSER: std::cell::RefCell<String> = Default::default(); }
+thread_local! { static PARSER: std::cell::RefCell<String> = Default::default(); static KINDS: std::cell::RefCell<Option<String>> = Default::default(); }
 
 // =============================================================================================== C14
 pub fn c14(cx: &Cx) -> i32 {
@@ -344,6 +354,11 @@ pub fn c14(cx: &Cx) -> i32 {
             let want: Vec<&str> = if is_enum { vec!["item.attrs", "item.variants[*].attrs", "item.variants[*].fields[*].attrs"] } else { vec!["item.attrs", "item.fields[*].attrs"] };
             let ok = places.len() == want.len() && places.iter().zip(want.iter()).all(|(a, b)| a == b);
             rep.check(ok, "ES-strip-coverage", &w.qual, "places", &format!("helper attributes are removed from {places:?}, expected exactly {want:?} (the item, its variants, their fields)"), &site(w), json!({}));
+            // every removal uses the very helper-attribute set the core filled in (not a copy with a flag changed)
+            let core_kinds = match fl { Flow::Val(v) | Flow::Ret(v) => { let mut k = None; v.any(&|x| { if let Val::Opaque { deps, .. } = x { if deps.len() == 3 { KINDS.with(|c| *c.borrow_mut() = Some(deps[2].short())); } } false }); if let Some(x) = KINDS.with(|c| c.borrow_mut().take()) { k = Some(x); } k } _ => None };
+            let rm_kinds: Vec<String> = st.events.iter().filter_map(|e| if let Event::Push { args, .. } = e { args.get(1).cloned() } else { None }).collect();
+            let same = core_kinds.is_some() && rm_kinds.iter().all(|k| Some(k) == core_kinds.as_ref());
+            rep.check(same, "ES-strip-coverage", &w.qual, "same-kinds", &format!("attributes are removed with a different helper-attribute set than the one derivation used (removal: {:?}, derivation: {:?}): what is parsed and what is stripped no longer agree", rm_kinds.first(), core_kinds), &site(w), json!({}));
             // any other mutation of the item
             let other_mut: Vec<String> = notes(st).into_iter().filter(|n| (n.starts_with("mutcall $item") || n.starts_with("field-assign item"))).collect();
             rep.check(other_mut.is_empty(), "MR-mutation-confinement", &w.qual, "other-mutation", &format!("the item is mutated beyond removing helper attributes: {other_mut:?}"), &site(w), json!({}));
@@ -357,7 +372,7 @@ pub fn c14(cx: &Cx) -> i32 {
         if let Some(f) = ix.get_fn(&q) { rep.check(!sig_text(&f).contains("&mutItem"), "MR-mutation-confinement", &q, "shared-ref", "a core takes the item by mutable reference", &site(&f), json!({})); }
     }
     // ---- ES-entry-emit: `build` emits the item first, then the generated tokens or the compile error
-    if let Some(b) = find_fn(ix, &|f| f.self_ty.is_none() && sig_text(f).starts_with("fnbuild(") && sig_text(f).matches("TokenStream").count() >= 3) {
+    if let Some(b) = find_fn(ix, &|f| f.self_ty.is_none() && f.attrs.is_empty() && f.sig.inputs.len() == 2 && f.sig.inputs.iter().all(|i| matches!(i, syn::FnArg::Typed(t) if crate::index::ty_str(&t.ty) == "TokenStream")) && sig_text(f).ends_with("->Result<TokenStream>")) {
         let mut ev = mk_ev(ix);
         for c in cg.edges.get(&b.qual).cloned().unwrap_or_default() { if let Some(f) = ix.get_fn(&c) { if sig_text(&f).contains("->Result<TokenStream>") && c != b.qual { ev.stops.push((c.clone(), "opaque")); } } }
         let outs = ev.call_fn(St::new(), &b, None, vec![sym("TokenStream", "attr"), sym("TokenStream", "item")]);
